@@ -47,7 +47,7 @@ def ncanon(e):
         return "%s(%s,%s)" % (x[1], ncanon(x[2]), ncanon(x[3]))
     if x[0] == "call":
         nm = "::".join(flow.short(x[2] or x[1]).split("::")[-2:])
-        nm = re.sub(r"^.*::", "", nm) if nm.endswith(("::mul", "::ge", "::lt")) else nm
+        nm = re.sub(r"^.*::", "", nm) if nm.endswith(("::mul", "::ge", "::lt", "::gt", "::le")) else nm
         args = [ncanon(a) for a in x[3]]
         if nm == "mul":
             args = sorted(args)
@@ -61,6 +61,42 @@ def ncanon(e):
     if x[0] == "cell":
         return ncanon(x[3])
     return canon(x)
+
+
+def _split_top(s):
+    """'name(a,b)' -> (name, [a, b]) splitting only at top-level commas; None if s is not of that form"""
+    m = re.match(r"^(\w+)\((.*)\)$", s)
+    if not m:
+        return None
+    args, depth, cur = [], 0, ""
+    for ch in m.group(2):
+        if ch == "," and depth == 0:
+            args.append(cur)
+            cur = ""
+            continue
+        depth += ch in "([{"
+        depth -= ch in ")]}"
+        cur += ch
+    args.append(cur)
+    return m.group(1), args
+
+
+def norm_cmp(s, ls):
+    """every ordering test in `>=` form: lt(a,b) = ¬ge(a,b), le(a,b) = ge(b,a), gt(a,b) = ¬ge(b,a) (labels flipped when negated),
+    for the method spelling (Duration) and the operator spelling (f32)"""
+    sp = _split_top(s)
+    if sp is None or len(sp[1]) != 2 or sp[0].lower() not in ("lt", "le", "gt", "ge") or sp[0] == "ge" or sp[0] == "Ge":
+        return s, ls
+    name, (a, b) = sp
+    ge = "Ge" if name[0].isupper() else "ge"
+    low = name.lower()
+    flip = low in ("lt", "gt")
+    if low in ("le", "gt"):
+        a, b = b, a
+    if flip:
+        sw_ = {"true": "false", "false": "true"}
+        ls = {tb: [sw_.get(l, l) for l in labs] for tb, labs in ls.items()}
+    return "%s(%s,%s)" % (ge, a, b), ls
 
 
 def check(ctx):
@@ -135,7 +171,7 @@ def check(ctx):
         if blk.cleanup or blk.term.kind != "switch" or b.is_noise(blk.term):
             continue
         e, ls = an.switch_info(blk.idx)
-        sw[blk.idx] = (R_(e), ls)
+        sw[blk.idx] = norm_cmp(R_(e), ls)
     AGE = "since(now,window)"
 
     def comm(op, a, b2):
@@ -307,6 +343,17 @@ def check(ctx):
             can = ctx.an(cb)
             r = flow.strip(return_expr(can))
             pred = R_(r).replace("cap:", "")
+            caps0 = dict(clo[2])
+            # a captured pre-computed value stands for its definition (`let max_age = self.duration * 2`)
+            for cn, cv in sorted(caps0.items(), key=lambda kv: -len(kv[0])):
+                val = R_(cv)
+                if val not in ("now", "self.duration"):
+                    pred = re.sub(r"\*{0,2}env\.%s\b" % re.escape(cn), val, pred)
+            sp = _split_top(pred)
+            if sp and sp[0] == "gt" and len(sp[1]) == 2:
+                pred = "lt(%s,%s)" % (sp[1][1], sp[1][0])     # a > b  ==  b < a
+            if sp and sp[0] == "ge" and len(sp[1]) == 2 and False:
+                pass
             okp = bool(re.match(r"lt\(since\(\*?\*?env\._ref__now,\*?param:[\w_]+\.?[\w.]*\),mul\(2,\*?\*?env\._ref__self__duration\)\)$", pred.replace(" ", ""))) or \
                 bool(re.search(r"lt\(since\(.*now.*\),mul\(2,.*duration.*\)\)$", pred))
             ctx.check(okp, R, "C13/guards/retain-predicate", cb.loc,
@@ -314,7 +361,10 @@ def check(ctx):
             ctx.check(not ctx.an(cb).mem_writes, "C13/key-isolation", "C13/key-isolation/retain-writes-nothing", cb.loc,
                       reason="the retain closure writes to entries", detail="retain closure only reads")
             caps = dict(clo[2])
-            capok = sorted(R_(v) for v in caps.values()) == ["now", "self.duration"]
+            # only the clock reading and the window length (or values computed from them) enter the predicate
+            capvals = sorted(R_(v) for v in caps.values())
+            capok = bool(capvals) and all(set(re.findall(r"[A-Za-z_][\w.]*", cv)) <= {"now", "self.duration", "mul", "Mul"} for cv in capvals) \
+                and any("now" in cv for cv in capvals) and any("self.duration" in cv for cv in capvals)
             ctx.check(capok, "C13/key-isolation", "C13/key-isolation/retain-captures", site(b, rb),
                       reason="retain closure captures %s" % sorted(R_(v) for v in caps.values()), detail="retain closure captures only now and self.duration")
         lc = [s for s in stores if s[2] == "last_cleanup"]
